@@ -72,6 +72,34 @@ fn write_json(v: &Value, perm: u64, out: &mut String) {
             }
             out.push(']');
         }
+        Value::String(st) if perm % 5 == 3 && st.chars().any(|c| c.is_ascii_alphabetic()) => {
+            // an equivalent spelling of the same string: one letter (and every '/') written as an escape
+            let plain = serde_json::to_string(st).unwrap();
+            let mut done = false;
+            let mut t = String::new();
+            let mut prev_backslash = false;
+            let mut skip = 0;
+            for c in plain.chars() {
+                if skip > 0 {
+                    skip -= 1;
+                    t.push(c);
+                    continue;
+                }
+                if prev_backslash && c == 'u' {
+                    skip = 4;
+                }
+                if !done && !prev_backslash && c.is_ascii_alphabetic() && (perm / 5) % 3 != 0 {
+                    t.push_str(&format!("\\u{:04x}", c as u32));
+                    done = true;
+                } else if c == '/' && !prev_backslash {
+                    t.push_str("\\/");
+                } else {
+                    t.push(c);
+                }
+                prev_backslash = c == '\\' && !prev_backslash;
+            }
+            out.push_str(&t);
+        }
         other => out.push_str(&serde_json::to_string(other).unwrap()),
     }
 }
